@@ -34,7 +34,7 @@ def obl(step, q, d, h, s, r, tiers):
         defines=dict(STEP=step, QN=q, DN=d, HN=h, SN=s, RN=r),
         unwind=max(q + 1, d + 1, s + d + 1, r + 2, 3) + 1,
         tiers=tiers,
-        timeout=300,
+        timeout=300, timeout_thorough=2400, backend=("cadical" if step == 2 else None),
         leak=step in (5, 6),
         instrument=[["--restrict-function-pointer", "worker_proc.function_pointer_call.1/callback"]] if step in (3, 7) else [],
         reach=reach,
